@@ -1,7 +1,7 @@
 (* C17: every duration that format_duration writes, parse_duration reads back as the same duration. *)
 From Coq Require Import List NArith ZArith Lia Bool Arith ZifyBool ZifyNat ZifyN.
 Import ListNotations.
-From SV Require Import Render RenderProofs ScriptExec ScriptExecProofs EnvProofs Duration.
+From SV Require Import Render RenderProofs ScriptExec ScriptExecProofs EnvProofs Duration gen_Humantime.
 Local Open Scope N_scope.
 Ltac Zify.zify_post_hook ::= Z.div_mod_to_equations.
 
@@ -287,3 +287,16 @@ Proof.
       rewrite T, ACC, NZ in P. vm_compute in P. discriminate. }
     rewrite T, parse_chain by exact OK. rewrite ACC, NZ. reflexivity.
 Qed.
+
+(* ---------- the transcription against the crate source that /repo locks (gen_Humantime.v is scraped on every run) ---------- *)
+Definition unit_no (u : unit_t) : N :=
+  match u with UNano => 0 | UMicro => 1 | UMilli => 2 | USec => 3 | UMin => 4 | UHour => 5 | UDay => 6 | UWeek => 7 | UMonth => 8 | UYear => 9 end.
+Definition all_units : list unit_t := [UNano; UMicro; UMilli; USec; UMin; UHour; UDay; UWeek; UMonth; UYear].
+Lemma unit_names_are_the_source : map (fun p => (fst p, unit_no (snd p))) unit_table = ht_unit_names.
+Proof. vm_compute. reflexivity. Qed.
+Lemma unit_amounts_are_the_source :
+  map (fun u => match unit_amount u 1 with Some (s, ns) => (unit_no u, s + ns, 0 <? ns) | None => (unit_no u, 0, false) end) all_units
+  = ht_unit_amounts.
+Proof. vm_compute. reflexivity. Qed.
+Lemma format_divisors_are_the_source : [Y_SECS; MO_SECS; 86400; 3600] = ht_format_divisors.
+Proof. vm_compute. reflexivity. Qed.
